@@ -20,7 +20,34 @@ PUSH_COMBS = {
     "map": (1, 1), "filter": (1, 1), "filter_map": (1, 1), "inspect": (1, 1),
     "flat_map": (1, 1), "flatten": (1, None), "fanout": (2, 1), "unzip": (2, 2),
     "demux": (None, 2),
+    "fold": (1, 1), "reduce": (1, 1), "sort_acc": (1, 1), "sort": (1, 1), "persist": (1, 1),
+    "for_each": (1, 1), "fold_keyed": (1, 2), "reduce_keyed": (1, 2), "resolve": (1, 2),
 }
+OPS = ["add", "max", "min"]
+
+
+def oev(o, a, x):
+    return a + x if o == "add" else (max(a, x) if o == "max" else min(a, x))
+
+
+def keyed_map(case):
+    m = {}
+    for it in case["items"]:
+        k, v = nth(it, 0), nth(it, 1)
+        if case["comb"] == "fold_keyed":
+            m[k] = oev(case["o"], m.get(k, case["init"]), v)
+        else:
+            m[k] = oev(case["o"], m[k], v) if k in m else v
+    return m
+
+
+def keyed_order(case, res):
+    """the HashMap iteration-order oracle, taken from the implementation's emission order"""
+    emitted = []
+    for e in (res.get("logs") or [[]])[0]:
+        if e[0] == "s" and e[1] // 100000 not in emitted:
+            emitted.append(e[1] // 100000)
+    return emitted + sorted(k for k in keyed_map(case) if k not in emitted)
 
 
 def fev(f, x):
@@ -77,6 +104,24 @@ def ref_items(case, i):
         return [nth(it, i) for it in items]
     if c == "demux":
         return [nth(it, 1) for it in items if nth(it, 0) == i]
+    if c == "fold":
+        a = case["init"]
+        for x in ns:
+            a = oev(case["o"], a, x)
+        return [a]
+    if c == "reduce":
+        a = case["init"]
+        for x in ns:
+            a = x if a is None else oev(case["o"], a, x)
+        return [] if a is None else [a]
+    if c in ("sort", "sort_acc"):
+        return sorted(ns)
+    if c == "persist":
+        return (case["pre"] if case["replay"] else []) + ns
+    if c in ("for_each", "resolve"):
+        return ns
+    if c in ("fold_keyed", "reduce_keyed"):
+        return sorted(k * 100000 + v for k, v in keyed_map(case).items())
     raise KeyError(c)
 
 
@@ -130,6 +175,34 @@ def log_strict_ok(log):
         if k == "f" and v:
             done = True
     return log_weak_ok(log)
+
+
+def resolve_send_after_fin(case, res):
+    """the known-finding class: ResolveFutures with a subgraph waker sends after the downstream's
+    poll_finalize was called (and answered Pending) -- and nothing else is wrong"""
+    if case["comb"] != "resolve" or not case.get("waker") or "logs" not in res:
+        return False
+    lg, q = res["logs"][0], res["logs"][1]
+    ready = started = done = late = False
+    for k, v in lg:
+        if done:
+            return False
+        if k == "s":
+            if not ready:
+                return False
+            late = late or started
+            ready = False
+        elif k == "r":
+            ready = bool(v)
+        else:
+            started, ready, done = True, False, bool(v)
+    vals = [nth(it, 0) for it in case["items"]]
+    s = sent(lg)
+    if s != vals[:len(s)]:
+        return False
+    if res["out"] == "fin" and (not done or s + sent(q) != vals):
+        return False
+    return late
 
 
 def sent(log):
@@ -210,8 +283,26 @@ def require_fix_markers():
                            "(models in Push/Model.v, Push/SinkModel.v must be re-transcribed)" % missing)
 
 
-def c_comb(case):
+_OC = {"add": "OAdd", "max": "OMax", "min": "OMin"}
+
+
+def c_comb(case, res=None):
     c = case["comb"]
+    if c == "fold":
+        return "(CFold %s %d)" % (_OC[case["o"]], case["init"])
+    if c == "reduce":
+        return "(CReduce %s %s)" % (_OC[case["o"]], "None" if case["init"] is None else "(Some %d)" % case["init"])
+    if c == "persist":
+        return "(CPersist %s %s)" % (g_list(["%d" % x for x in case["pre"]]), g_bool(case["replay"]))
+    if c in ("fold_keyed", "reduce_keyed"):
+        ord_ = g_list(["%d" % k for k in keyed_order(case, res or {})])
+        if c == "fold_keyed":
+            return "(CFoldKeyed %s %d %s)" % (_OC[case["o"]], case["init"], ord_)
+        return "(CReduceKeyed %s %s)" % (_OC[case["o"]], ord_)
+    if c == "resolve":
+        return "(CResolve %s)" % g_bool(case["waker"])
+    if c in ("sort_acc", "sort", "for_each"):
+        return {"sort_acc": "CSortAcc", "sort": "CSort", "for_each": "CForEach"}[c]
     if c == "map":
         return "(CMap %s)" % c_fcode(case["f"])
     if c == "filter":
@@ -262,7 +353,7 @@ def c_obs(res):
 def push_term(case, res, fn="chk12"):
     if "panic" not in res and "logs" not in res:
         return 3  # hang / crash / garbled: nothing to compare, no property can hold
-    return "(%s %s %d%%nat %s %s %s)" % (fn, c_comb(case), case["fuel"], c_items(case["items"]),
+    return "(%s %s %d%%nat %s %s %s)" % (fn, c_comb(case, res), case["fuel"], c_items(case["items"]),
                                     c_downs(case["downs"]), c_obs(res))
 
 
@@ -282,6 +373,10 @@ def gen_items(rng, comb, n, nd):
         elif comb == "demux":
             idx = rng.below(nd)
             items.append([idx, gen_value(rng)])
+        elif comb in ("fold_keyed", "reduce_keyed"):
+            items.append([rng.below(4), gen_value(rng)])
+        elif comb == "resolve":
+            items.append([gen_value(rng), rng.choice([0, 0, 0, 1, 2, 3])])
         else:
             items.append([gen_value(rng) for _ in range(arity)])
     return items
@@ -295,6 +390,17 @@ def gen_params(rng, comb):
         d["q"] = rng.choice(QS)
     if comb == "flat_map":
         d["g"] = rng.choice(GS)
+    if comb in ("fold", "reduce", "fold_keyed", "reduce_keyed"):
+        d["o"] = rng.choice(OPS)
+    if comb in ("fold", "fold_keyed"):
+        d["init"] = rng.below(5)
+    if comb == "reduce":
+        d["init"] = None if rng.chance(2, 3) else rng.below(9)
+    if comb == "persist":
+        d["pre"] = [gen_value(rng) for _ in range(rng.choice([0, 0, 1, 2, 3]))]
+        d["replay"] = rng.chance(1, 2)
+    if comb == "resolve":
+        d["waker"] = rng.chance(1, 3)
     return d
 
 
